@@ -431,7 +431,7 @@ def gen(ctx):
             add([(g.El(name=nm, self_close=True), '+'), (g.El(name='ul'), '>'), (g.El(name=nm, self_close=True, classes=['k']), '+'),
                  (g.El(name=None, classes=['x']), '')], syntax, '\t', 'self-close')
     # 4. random statements: wide and deep, groups, repeaters
-    n_rand = 2500 if ctx.tier == 'quick' else 60000
+    n_rand = 2500 if ctx.tier == 'quick' else 40000
     for _ in range(n_rand):
         big = rng.random() < 0.2
         deep = rng.random() < 0.4
@@ -468,7 +468,7 @@ def gen_tie(ctx):
         for syntax in SYNTAXES:
             for o in OPTS:
                 cases.append((s, {'syntax': syntax, 'options': dict(o)}, None))
-    n = 1500 if ctx.tier == 'quick' else 40000
+    n = 1500 if ctx.tier == 'quick' else 25000
     for _ in range(n):
         s = ''.join(rng.choice(FRAGS) for _ in range(rng.randint(1, 7)))
         cases.append((s, {'syntax': rng.choice(SYNTAXES), 'options': dict(rng.choice(OPTS))}, None))
